@@ -2,15 +2,36 @@ package rules
 
 import (
 	"fmt"
+	"os"
 
 	"verif/tool/internal/core"
 )
 
+// dump prints the return paths of a function (TRCHECK_DUMP=<FuncName>) or the matchers' decision tables.
 func dump() int {
 	p, err := core.Load("linux", nil)
 	if err != nil {
 		fmt.Println(err)
 		return 2
+	}
+	if name := os.Getenv("TRCHECK_DUMP"); name != "" {
+		f := p.Func(name)
+		if f == nil {
+			fmt.Println("no such function", name)
+			return 2
+		}
+		rps, ok := core.ReturnPaths(p, f, 5000)
+		fmt.Println("complete:", ok)
+		for _, rp := range rps {
+			fmt.Printf("  return b%d path %s\n", rp.Ret.Block().Index, rp.Path)
+			for _, a := range rp.Atoms {
+				fmt.Printf("      %s\n", a)
+			}
+			for i, r := range rp.Results {
+				fmt.Printf("      => #%d = %s\n", i, r)
+			}
+		}
+		return 0
 	}
 	for _, d := range Drivers(p) {
 		fmt.Println("== driver", d.Name)
